@@ -424,7 +424,7 @@ func (rn *runner) splitCheck(m *common.Model, ls *longScript) (string, string) {
 	return m.Ask1("split " + common.Hex([]byte(text))), want
 }
 
-func (rn *runner) longLines(r *common.RNG) {
+func (rn *runner) longLines(r *common.RNG) int {
 	nFree, nModel := 3*len(longSizes), 9
 	sizes := longSizes
 	if rn.f.Tier == "thorough" {
@@ -498,6 +498,7 @@ func (rn *runner) longLines(r *common.RNG) {
 			}
 		}
 	}
+	return len(jobs)
 }
 
 func sizeClass(n int) string {
@@ -818,7 +819,7 @@ func (rn *runner) reportHistory(h *history, f *histFailure) {
 		Key: name + ":" + in["spec"], Detail: fmt.Sprintf("after line %d of the history: %s", final.step+1, final.detail)})
 }
 
-func (rn *runner) histories(r *common.RNG) {
+func (rn *runner) histories(r *common.RNG) int {
 	n := 48
 	if rn.f.Tier == "thorough" {
 		n = 600
@@ -852,7 +853,7 @@ func (rn *runner) histories(r *common.RNG) {
 		mos, err := runModel(rn.m, scs, obs)
 		if err != nil {
 			rn.res.Violate(common.Violation{Kind: "correspondence", Oracle: "model-process", Key: "model-died", Detail: err.Error(), Input: map[string]string{}})
-			return
+			return n
 		}
 		for i, h := range hs {
 			rn.res.Count("history:scripts")
@@ -874,6 +875,7 @@ func (rn *runner) histories(r *common.RNG) {
 			}
 		}
 	}
+	return n
 }
 
 func (rn *runner) replayHistory(v common.Violation) {
@@ -885,12 +887,223 @@ func (rn *runner) replayHistory(v common.Violation) {
 	sc, _, o, f := rn.evalHistory(&h)
 	rn.res.Case("history-replay", true)
 	if f != nil {
-		rn.res.Violate(common.Violation{Kind: "impl-violation", Oracle: v.Oracle, Input: v.Input, Impl: fmt.Sprintf("%s = %q", f.what, f.got), Model: fmt.Sprintf("%q", f.want), Key: v.Key,
+		name := "history-latest-wins"
+		if f.what == "verdict" || f.what == "expansion" {
+			name = "history-script-runs"
+		}
+		rn.res.Violate(common.Violation{Kind: "impl-violation", Oracle: name, Input: v.Input, Impl: fmt.Sprintf("%s = %q", f.what, f.got), Model: fmt.Sprintf("%q", f.want), Key: v.Key,
 			Detail: fmt.Sprintf("after line %d of the history: %s", f.step+1, f.detail)})
 	}
 	if mo, err := runModel(rn.m, []*script{sc}, []*scriptObs{o}); err == nil {
 		for _, mm := range compareScript(sc, o, mo[0]) {
 			rn.res.Violate(common.Violation{Kind: "correspondence", Oracle: mm.fn, Input: v.Input, Model: mm.model, Impl: mm.impl, Key: mm.fn + ":" + v.Input["spec"], Detail: mm.detail})
 		}
+	}
+}
+
+// ---------------------------------------------------------------- the listing
+
+// The argument-less env prints every variable once with the value expansion uses.  The printed
+// text is read from what the script hands to T.Log: the history is followed by `env` and by a line
+// that fails, so that the log of the last phase is flushed.
+
+const listingFailLine = "exists no-such-file-for-the-listing"
+
+func (h *history) buildListing() *script {
+	sc, _ := (&history{Steps: nil, Keys: h.Keys, Setup: h.Setup}).build()
+	sc.items = nil
+	full, _ := h.build()
+	for _, it := range full.items {
+		switch it.kind {
+		case 'H', 'S', 'D', 'R':
+			sc.items = append(sc.items, it)
+		}
+	}
+	sc.items = append(sc.items, item{kind: 'R', text: "env"}, item{kind: 'R', text: listingFailLine})
+	sc.keepLog = true
+	return sc
+}
+
+// listingOf: the lines between the last "> env" and the next command echo
+func listingOf(log string) ([]string, bool) {
+	lines := strings.Split(log, "\n")
+	at := -1
+	for i, l := range lines {
+		if l == "> env" {
+			at = i
+		}
+	}
+	if at < 0 {
+		return nil, false
+	}
+	var out []string
+	for _, l := range lines[at+1:] {
+		if strings.HasPrefix(l, "> ") {
+			return out, true
+		}
+		out = append(out, l)
+	}
+	return out, false
+}
+
+func (h *history) latest() map[string]string {
+	_, views := h.build()
+	return views[len(views)-1].vals
+}
+
+func (h *history) assigned() map[string]bool {
+	m := map[string]bool{"HOME": true}
+	for _, st := range h.Steps {
+		if st.K == "env" || st.K == "setenv" {
+			for _, a := range st.A {
+				if a[1] != "?" {
+					m[string(common.UnHex(a[0]))] = true
+				}
+			}
+		}
+	}
+	return m
+}
+
+// checkListing: model-free — every name is printed once; the observed variables that are in the
+// list are printed with the value of the latest assignment
+func checkListing(h *history, o *scriptObs) (fails bool, detail, got, want string) {
+	if o.verdict != "FAIL" {
+		return true, "the script ends in a failing line by construction", o.verdict, "FAIL"
+	}
+	ls, ok := listingOf(o.log)
+	if !ok {
+		return true, "no listing in the log of the script", preview(o.log, 200), "> env ... > " + listingFailLine
+	}
+	seen := map[string]string{}
+	for _, l := range ls {
+		i := strings.IndexByte(l, '=')
+		if i < 0 {
+			return true, "a line of the listing is not NAME=VALUE", l, "NAME=VALUE"
+		}
+		if _, dup := seen[l[:i]]; dup {
+			return true, "the listing prints a variable twice", l, "each variable once"
+		}
+		seen[l[:i]] = l[i+1:]
+	}
+	latest, assigned := h.latest(), h.assigned()
+	for _, k := range h.Keys {
+		v, printed := seen[k]
+		if !assigned[k] {
+			continue
+		}
+		if !printed {
+			return true, "the listing does not print an assigned variable", "no line for " + k, k + "=" + latest[k]
+		}
+		if v != latest[k] {
+			return true, "the listing prints another value than the latest assignment", k + "=" + v, k + "=" + latest[k]
+		}
+	}
+	return false, "", "", ""
+}
+
+// modelListing: env_listing of the model after the same history, with the abbreviation of the
+// work directory the log applies
+func (rn *runner) modelListing(sc *script, o *scriptObs) ([]string, error) {
+	reqs := []string{strings.TrimSpace("reset " + common.Hex([]byte(o.cd)) + " " + hexes(o.vars))}
+	for _, it := range sc.items {
+		switch it.kind {
+		case 'H', 'R':
+			reqs = append(reqs, "line "+common.Hex([]byte(it.text)))
+		case 'S':
+			reqs = append(reqs, "setenv "+common.Hex([]byte(it.k))+" "+common.Hex([]byte(it.v)))
+		case 'D':
+			reqs = append(reqs, "cd "+common.Hex([]byte(filepath.Join(o.cd, it.v))))
+		}
+	}
+	reqs = append(reqs, "listing")
+	ans, err := rn.m.Ask(reqs)
+	if err != nil {
+		return nil, err
+	}
+	a := ans[len(ans)-1]
+	if a == "none" {
+		return nil, nil
+	}
+	var out []string
+	for _, kv := range strings.Fields(a)[1:] {
+		i := strings.IndexByte(kv, '=')
+		l := string(common.UnHex(kv[:i])) + "=" + string(common.UnHex(kv[i+1:]))
+		out = append(out, strings.ReplaceAll(l, o.cd, "$WORK"))
+	}
+	return out, nil
+}
+
+func listingInput(h *history) map[string]string {
+	in := histInput(h, len(h.Steps))
+	in["mode"] = "listing"
+	in["reading"] = "the history is followed by `env` and a failing line; the listing is read from what the script hands to T.Log"
+	return in
+}
+
+func (rn *runner) evalListing(h *history) (viol []common.Violation) {
+	sc := h.buildListing()
+	o := runImpl(rn.f.Work, []*script{sc}, false)[0]
+	in := listingInput(h)
+	if fails, detail, got, want := checkListing(h, o); fails {
+		in["oracle"] = "listing-shows-latest"
+		viol = append(viol, common.Violation{Kind: "impl-violation", Oracle: "listing-shows-latest", Input: in, Impl: got, Model: want, Key: "listing-shows-latest:" + in["spec"], Detail: detail})
+	}
+	ml, err := rn.modelListing(sc, o)
+	if il, ok := listingOf(o.log); err == nil && ok && !eqStrings(ml, il) {
+		viol = append(viol, common.Violation{Kind: "correspondence", Oracle: "env_listing", Input: in, Model: showWords(ml), Impl: showWords(il), Key: "env_listing:" + in["spec"],
+			Detail: "env_listing of the model and the lines the argument-less env printed differ (names, values or order)"})
+	}
+	return
+}
+
+func (rn *runner) listings(r *common.RNG) int {
+	n := 30
+	if rn.f.Tier == "thorough" {
+		n = 400
+	}
+	for i := 0; i < n; i++ {
+		h := genHistory(r, i)
+		h.Verbose = false
+		rn.res.Count("listing:scripts")
+		rn.res.Count("oracle:listing-shows-latest")
+		rn.res.Case("listing:"+fmt.Sprint(i), true)
+		vs := rn.evalListing(h)
+		if len(vs) == 0 {
+			continue
+		}
+		// shrink the history while a finding of the same kind remains
+		kind := vs[0].Oracle
+		has := func(c []hspec) bool {
+			for _, v := range rn.evalListing(&history{Steps: c, Keys: h.Keys, Setup: h.Setup}) {
+				if v.Oracle == kind {
+					return true
+				}
+			}
+			return false
+		}
+		rn.res.Count("oracle-fails:" + kind)
+		if rn.shrunk["l:"+kind]++; rn.shrunk["l:"+kind] <= 2 {
+			small := &history{Steps: common.ShrinkList(h.Steps, has), Keys: h.Keys, Setup: h.Setup}
+			if svs := rn.evalListing(small); len(svs) > 0 {
+				vs = svs
+			}
+		}
+		for _, v := range vs {
+			rn.res.Violate(v)
+		}
+	}
+	return n
+}
+
+func (rn *runner) replayListing(v common.Violation) {
+	var h history
+	if err := json.Unmarshal([]byte(v.Input["spec"]), &h); err != nil {
+		rn.res.Notes = append(rn.res.Notes, "replay: bad spec: "+err.Error())
+		return
+	}
+	rn.res.Case("listing-replay", true)
+	for _, x := range rn.evalListing(&h) {
+		rn.res.Violate(x)
 	}
 }
